@@ -25,7 +25,7 @@ import (
 )
 
 type HTick struct {
-	Outcome string `json:"o"`           // ok | latebody | never
+	Outcome string `json:"o"`           // ok | latebody | never | ssecut (SSE framing: an event id and a retry hint longer than the ping's time-out, then the stream ends without the answer)
 	DelayNS int64  `json:"d,omitempty"` // ok: < I/2 before anything is sent; latebody: > I/2 between headers and body
 }
 
@@ -34,6 +34,8 @@ type HTTPScript struct {
 	IntervalNS int64   `json:"interval_ns"`
 	Threshold  int     `json:"threshold"`
 	Pattern    []HTick `json:"pattern"`
+	// Retries: StreamableClientTransport.MaxRetries (-1: the client never reconnects; 0: the default budget)
+	Retries int `json:"retries"`
 }
 
 func genHTTP(rt *rapid.T) HTTPScript {
@@ -42,9 +44,15 @@ func genHTTP(rt *rapid.T) HTTPScript {
 	s.IntervalNS = int64(rapid.SampledFrom([]time.Duration{10 * time.Millisecond, time.Second, 30 * time.Second}).Draw(rt, "interval"))
 	s.Threshold = rapid.SampledFrom([]int{0, 1, 2, 2, 3, 3, 5}).Draw(rt, "threshold")
 	half := s.IntervalNS / 2
+	s.Retries = rapid.SampledFrom([]int{-1, -1, 0}).Draw(rt, "retries")
+	outcomes := []string{"ok", "ok", "ok", "latebody", "latebody", "never"}
+	if s.SSE && s.Retries == 0 {
+		// (with reconnection switched off such a stream end is a broken link, whatever the keep-alive settings)
+		outcomes = append(outcomes, "ssecut", "ssecut")
+	}
 	n := rapid.IntRange(1, 20).Draw(rt, "ticks")
 	for i := 0; i < n; i++ {
-		t := HTick{Outcome: rapid.SampledFrom([]string{"ok", "ok", "ok", "latebody", "latebody", "never"}).Draw(rt, "o")}
+		t := HTick{Outcome: rapid.SampledFrom(outcomes).Draw(rt, "o")}
 		switch t.Outcome {
 		case "ok":
 			t.DelayNS = rapid.SampledFrom([]int64{0, 1, half / 2, half - 1}).Draw(rt, "d")
@@ -126,6 +134,10 @@ func runHTTPInBubble(s HTTPScript) (res vt.Result) {
 					write(w, answer)
 				case <-r.Context().Done():
 				}
+			case "ssecut":
+				// a resumable stream that ends before the answer, with a reconnection delay no ping outlives
+				w.Header().Set("Content-Type", ct)
+				fmt.Fprintf(w, "id: ping%d_0\nretry: %d\ndata: \n\n", len(pingTimes), 4*I.Milliseconds()+1000)
 			default: // never
 				<-r.Context().Done()
 			}
@@ -140,7 +152,7 @@ func runHTTPInBubble(s HTTPScript) (res vt.Result) {
 	cerr := make(chan error, 1)
 	go func() {
 		var e error
-		cs, e = client.Connect(context.Background(), &mcp.StreamableClientTransport{Endpoint: "http://mcp.example/mcp", HTTPClient: tr.Client(), DisableStandaloneSSE: true, MaxRetries: -1},
+		cs, e = client.Connect(context.Background(), &mcp.StreamableClientTransport{Endpoint: "http://mcp.example/mcp", HTTPClient: tr.Client(), DisableStandaloneSSE: true, MaxRetries: s.Retries},
 			&mcp.ClientSessionOptions{ProtocolVersion: "2025-06-18"})
 		cerr <- e
 	}()
@@ -287,7 +299,7 @@ func runHTTPInBubble(s HTTPScript) (res vt.Result) {
 		ex.Cut(memhttp.ErrCut)
 	}
 	synctest.Wait()
-	res.Desc = fmt.Sprintf("http/%v/%d/%d/%s", s.SSE, s.IntervalNS, s.Threshold, desc.String())
+	res.Desc = fmt.Sprintf("http/%v/%d/%d/%d/%s", s.SSE, s.IntervalNS, s.Threshold, s.Retries, desc.String())
 	res.NonTrivial = recovered || thrReached
 	if recovered {
 		res.Class("recovery_below_threshold")
@@ -297,6 +309,9 @@ func runHTTPInBubble(s HTTPScript) (res vt.Result) {
 	}
 	if strings.Contains(desc.String(), "l") {
 		res.Class("body_after_ping_timeout")
+	}
+	if strings.Contains(desc.String(), "s") {
+		res.Class("ping_stream_ended_with_a_long_retry_hint")
 	}
 	res.Class(map[bool]string{true: "framing_sse", false: "framing_json"}[s.SSE])
 	return res
